@@ -335,12 +335,20 @@ func WaitAll() {
 
 // Quiesce lets container-spawned goroutines run until they are blocked or done.
 func Quiesce() {
-	prev := -1
-	for i := 0; i < 200; i++ {
+	// natively "blocked or done" is approximated by a goroutine count that stays
+	// the same over several consecutive polls (a woken watcher that has not been
+	// scheduled yet does not change the count, hence more than one poll)
+	prev, stable := -1, 0
+	for i := 0; i < 400; i++ {
 		runtime.Gosched()
-		time.Sleep(200 * time.Microsecond)
+		time.Sleep(500 * time.Microsecond)
 		n := runtime.NumGoroutine()
-		if n == prev && i > 5 {
+		if n == prev {
+			stable++
+		} else {
+			stable = 0
+		}
+		if stable >= 6 {
 			return
 		}
 		prev = n
